@@ -181,6 +181,10 @@ def layouts_insn(item):
         r = tv.check_il_pair(a["rzil"][i], b["rzil"][i], il_subs("READ_STATEMENTS"), il_subs("EXEC_CLASSES"), optab,
                              tv.Opts(unroll=unroll, timeout_ms=timeout_ms))
         d = r.as_dict()
+        if d["verdict"] == "equiv":
+            w = layout_wf(a["rzil"][i], b["rzil"][i], optab)
+            if w:
+                d.update(verdict="syntax", detail=w)
         d.update(key=key, c=beh, time=round(time.time() - t0, 3))
         if d["verdict"] != "equiv":
             d["il_a"], d["il_b"] = a["rzil"][i], b["rzil"][i]
@@ -210,3 +214,17 @@ def noped_effects(text, subs, macs):
     if not z3.is_false(z3.simplify(st.cancel)):
         eff.append("cancels a slot")
     return ", ".join(eff)
+
+
+WF_LAYOUT_CLAUSES = ("c11:syntax", "c11:use-before-decl", "c11:redeclared", "c10:")
+
+
+def layout_wf(il_a, il_b, optab):
+    """C16 'both well-formed': declaration order / single declaration / sorts of BOTH layouts ('' if fine)."""
+    from . import wf
+    out = []
+    for fmt, il in (("READ_STATEMENTS", il_a), ("EXEC_CLASSES", il_b)):
+        for cl, msg in wf.check_body(il, optab, sub_sigs(fmt)):
+            if cl.startswith(WF_LAYOUT_CLAUSES):
+                out.append(f"{fmt}: {cl} {msg}")
+    return " ; ".join(out)[:400]
